@@ -83,7 +83,67 @@ def parse_entry(text):
     return ("ptr", mv, clicks, ticks)
 
 
+def vnclog_cli_leg(ctx):
+    """the recorder's handshake parsing depends on ONE option, --password-required; it must be exactly what the user said,
+    whatever else is on the command line (-p PASSWORD in particular is the password vnclog itself would use, nothing else).
+    Then a 3.3 session with security None is recorded under each command line."""
+    import io, os, sys, itertools, tempfile
+    from unittest import mock
+    from vncdotool import command as cmd
+    tmpd = tempfile.mkdtemp(prefix="verif-c17-")
+    for pwreq, with_p, listen in itertools.product([False, True], [None, "", "secret"], [False, True]):
+        facs = []
+
+        class Rx:
+            exit_status = None
+
+            def listenTCP(self, port, factory, *a, **k):
+                facs.append(factory)
+                return mock.Mock(getHost=lambda: mock.Mock(port=5999))
+
+            def run(self, *a, **k):
+                pass
+
+            def spawnProcess(self, *a, **k):
+                pass
+        argv = ["vnclog", "-s", "h:1"] + (["--password-required"] if pwreq else []) + (["-p", with_p] if with_p is not None else []) + \
+               (["--listen", "5999"] if listen else []) + [os.path.join(tmpd, "out.vdo")]
+        with mock.patch.object(cmd, "reactor", Rx()), mock.patch.object(cmd, "setup_logging", lambda o: None), mock.patch.object(sys, "argv", argv), \
+                mock.patch.object(sys, "stderr", io.StringIO()):
+            try:
+                cmd.vnclog()
+            except SystemExit:
+                pass
+        ctx.count("vnclog_command_lines")
+        ctx.case(None, key=("vnclog-cli", pwreq, with_p, listen))
+        if len(facs) != 1 or bool(facs[0].password_required) != pwreq:
+            ctx.violate("vnclog-options", {"input": {"command_line": argv},
+                                           "observed": "the proxy factory has password_required=%r; the command line says %r" % (facs and facs[0].password_required, pwreq),
+                                           "how": "the real vnclog() entry point with a recording reactor"})
+            continue
+        # a viewer speaking RFB 3.3 (the server decides on the security type): with --password-required the 16-byte response
+        # precedes ClientInit, without it ClientInit follows the version line at once
+        fac = facs[0]
+        rec = []
+        fac.output = type("O", (), {"write": lambda self, s: rec.append(s)})()
+        from twisted.internet import reactor as treactor
+        cap = {}
+        with mock.patch.object(treactor, "connectTCP", lambda h, p, f: cap.setdefault("f", f)):
+            srv = fac.buildProtocol(None)
+            srv.transport = FakeTransport([], "")
+            srv.connectionMade()
+        cl = cap["f"].buildProtocol(None)
+        cl.transport = FakeTransport([], "")
+        cl.connectionMade()
+        srv.dataReceived(b"RFB 003.003\n" + (bytes(16) if pwreq else b"") + b"\x01" + struct.pack("!BBxxI", 4, 1, 0x61) + struct.pack("!BBxxI", 4, 0, 0x61))
+        text = "".join(rec)
+        if text.count("keydown a") != 1 or text.count("keyup a") != 1:
+            ctx.violate("vnclog-options", {"input": {"command_line": argv, "viewer": "RFB 3.3, %s, key a down/up" % ("16-byte response" if pwreq else "no authentication")},
+                                           "observed": "recorded %r" % text[:120], "how": "the factory built by vnclog() serving an in-memory viewer"})
+
+
 def run(ctx):
+    vnclog_cli_leg(ctx)
     r = ctx.rng
     n = ctx.n(150, 2500)
     lines, meta_all = [], []
